@@ -214,7 +214,7 @@ class LifeWorld(CompWorld):
             return
         some = assets[len(assets) // 2]
         for nm in (None, some.name, 'no such asset'):
-            for i in (None, some.id, 987654):
+            for i in (None, int(str(some.id)), 987654):      # equal to the id, not the same int object
                 for ty in (None, type(some), Source):
                     for sb in (None, PartHandler, Asset):
                         got = s.find_assets(name=nm, id_=i, type_=ty, subtype=sb)
